@@ -71,6 +71,9 @@ pub fn gen_key(rng: &mut Rng, kt: Kt, key_mode: u8) -> B {
         Kt::Str | Kt::Bytes => {
             let len = match key_mode {
                 1 => 11,
+                // key lengths whose record exactly fills a slot class while both offsets need 2 bytes
+                // (klen = class - 6), or the chain tail's (next = 0: class - 5)
+                3 => *rng.pick(&[10usize, 10, 11, 18, 18, 19, 26, 27, 42, 58, 10, 18]),
                 _ => {
                     let choices: &[usize] = if key_mode == 2 {
                         &[0, 1, 2, 3, 5, 8, 11, 12, 13, 19, 43, 100, 126, 127, 128, 300, 1100, 5000]
@@ -124,6 +127,57 @@ pub fn gen_val(rng: &mut Rng, mode: u8) -> B {
     } else {
         B::Pat(len, rng.below(1000))
     }
+}
+
+/// C08/C01/C05: one- or two-bucket map whose key records exactly fill their slots; both files are
+/// pushed beyond 16 KiB by one huge entry that is deleted again, then old entries are overwritten
+/// with longer values and deleted: value records move past an offset-width boundary, key records
+/// follow, predecessors cascade toward the bucket.
+pub fn gen_cascade(rng: &mut Rng, kt: Kt, n_ops: usize) -> Seq {
+    gen_cascade_infl(rng, kt, n_ops, 16_400, 17_500)
+}
+
+/// the same with a chosen size of the inflating entry (C09: beyond 128 KiB the offset estimate of a
+/// key record has no slack left)
+pub fn gen_cascade_infl(rng: &mut Rng, kt: Kt, n_ops: usize, lo: u64, hi: u64) -> Seq {
+    let mut pool: Vec<B> = Vec::new();
+    while pool.len() < rng.range(3, 30) as usize {
+        let k = gen_key(rng, kt, 3);
+        if !pool.iter().any(|x| x.bytes() == k.bytes()) {
+            pool.push(k);
+        }
+    }
+    // the first key put is the chain tail (next = 0): give it a tail-exact length (class - 5) often
+    if rng.chance(2, 3) {
+        let l = *rng.pick(&[11usize, 11, 19, 27, 43]);
+        let alpha: &[u8] = b"abkz019_";
+        pool[0] = B::Hex((0..l).map(|_| *rng.pick(alpha)).collect());
+    }
+    let mut ops = Vec::new();
+    for k in &pool {
+        ops.push(Op::Put(k.clone(), B::Pat(rng.below(10) as usize, 1)));
+    }
+    let big = B::Pat(rng.range(16_500, 17_500) as usize, 4242);
+    ops.push(Op::Put(big.clone(), B::Pat(rng.range(lo, hi) as usize, 7)));
+    if rng.chance(3, 4) {
+        ops.push(Op::Del(big.clone()));
+    }
+    for _ in 0..n_ops {
+        let k = rng.pick(&pool).clone();
+        ops.push(match rng.below(10) {
+            0..=5 => Op::Put(k, B::Pat(rng.range(20, 400) as usize, rng.below(100))),
+            6 | 7 => Op::Del(k),
+            8 => Op::Get(k),
+            _ => Op::Put(gen_key(rng, kt, 3), B::Pat(rng.below(30) as usize, 3)),
+        });
+    }
+    for k in &pool {
+        ops.push(Op::Get(k.clone()));
+    }
+    ops.push(Op::Len);
+    ops.push(Op::Iter(0));
+    ops.push(Op::Stats);
+    Seq { kt, params: Params::buckets(*rng.pick(&[1u64, 1, 2])), ops }
 }
 
 pub fn gen_history(rng: &mut Rng, p: &Profile) -> Seq {
